@@ -48,6 +48,7 @@ func genScript(t *rapid.T, g scriptGenOpts) Script {
 	s.RespWithErr = rapid.IntRange(0, 2).Draw(t, "respwitherr") == 0
 	if rapid.IntRange(0, 7).Draw(t, "spoof") == 0 {
 		s.Spoof = 1 + rapid.SampledFrom([]int{0, 0, 5, 13, 16}).Draw(t, "spoofcode")
+		s.SpoofCase = rapid.IntRange(0, 2).Draw(t, "spoofcase")
 	}
 	nreq := 1
 	if clientStreaming(s.Kind) {
